@@ -1,22 +1,49 @@
 // Package vatomic stands in for "sync/atomic" (sequentially consistent; every operation is a point).
 package vatomic
 
-import "verif/vrt"
+import (
+	"unsafe"
 
-func AddUint32(p *uint32, d uint32) uint32 { vrt.R.Point(vrt.KAtomic); *p += d; return *p }
-func AddUint64(p *uint64, d uint64) uint64 { vrt.R.Point(vrt.KAtomic); *p += d; return *p }
-func AddInt32(p *int32, d int32) int32     { vrt.R.Point(vrt.KAtomic); *p += d; return *p }
-func AddInt64(p *int64, d int64) int64     { vrt.R.Point(vrt.KAtomic); *p += d; return *p }
-func LoadUint32(p *uint32) uint32          { vrt.R.Point(vrt.KAtomic); return *p }
-func LoadUint64(p *uint64) uint64          { vrt.R.Point(vrt.KAtomic); return *p }
-func LoadInt32(p *int32) int32             { vrt.R.Point(vrt.KAtomic); return *p }
-func LoadInt64(p *int64) int64             { vrt.R.Point(vrt.KAtomic); return *p }
-func StoreUint32(p *uint32, v uint32)      { vrt.R.Point(vrt.KAtomic); *p = v }
-func StoreUint64(p *uint64, v uint64)      { vrt.R.Point(vrt.KAtomic); *p = v }
-func StoreInt32(p *int32, v int32)         { vrt.R.Point(vrt.KAtomic); *p = v }
-func StoreInt64(p *int64, v int64)         { vrt.R.Point(vrt.KAtomic); *p = v }
+	"verif/vrt"
+)
+
+func hb(p unsafe.Pointer) { vrt.HBAtomic(uintptr(p)) }
+
+func AddUint32(p *uint32, d uint32) uint32 {
+	vrt.R.Point(vrt.KAtomic)
+	hb(unsafe.Pointer(p))
+	*p += d
+	return *p
+}
+func AddUint64(p *uint64, d uint64) uint64 {
+	vrt.R.Point(vrt.KAtomic)
+	hb(unsafe.Pointer(p))
+	*p += d
+	return *p
+}
+func AddInt32(p *int32, d int32) int32 {
+	vrt.R.Point(vrt.KAtomic)
+	hb(unsafe.Pointer(p))
+	*p += d
+	return *p
+}
+func AddInt64(p *int64, d int64) int64 {
+	vrt.R.Point(vrt.KAtomic)
+	hb(unsafe.Pointer(p))
+	*p += d
+	return *p
+}
+func LoadUint32(p *uint32) uint32     { vrt.R.Point(vrt.KAtomic); hb(unsafe.Pointer(p)); return *p }
+func LoadUint64(p *uint64) uint64     { vrt.R.Point(vrt.KAtomic); hb(unsafe.Pointer(p)); return *p }
+func LoadInt32(p *int32) int32        { vrt.R.Point(vrt.KAtomic); hb(unsafe.Pointer(p)); return *p }
+func LoadInt64(p *int64) int64        { vrt.R.Point(vrt.KAtomic); hb(unsafe.Pointer(p)); return *p }
+func StoreUint32(p *uint32, v uint32) { vrt.R.Point(vrt.KAtomic); hb(unsafe.Pointer(p)); *p = v }
+func StoreUint64(p *uint64, v uint64) { vrt.R.Point(vrt.KAtomic); hb(unsafe.Pointer(p)); *p = v }
+func StoreInt32(p *int32, v int32)    { vrt.R.Point(vrt.KAtomic); hb(unsafe.Pointer(p)); *p = v }
+func StoreInt64(p *int64, v int64)    { vrt.R.Point(vrt.KAtomic); hb(unsafe.Pointer(p)); *p = v }
 func CompareAndSwapUint32(p *uint32, o, n uint32) bool {
 	vrt.R.Point(vrt.KAtomic)
+	hb(unsafe.Pointer(p))
 	if *p == o {
 		*p = n
 		return true
@@ -25,6 +52,7 @@ func CompareAndSwapUint32(p *uint32, o, n uint32) bool {
 }
 func CompareAndSwapUint64(p *uint64, o, n uint64) bool {
 	vrt.R.Point(vrt.KAtomic)
+	hb(unsafe.Pointer(p))
 	if *p == o {
 		*p = n
 		return true
@@ -33,6 +61,7 @@ func CompareAndSwapUint64(p *uint64, o, n uint64) bool {
 }
 func CompareAndSwapInt32(p *int32, o, n int32) bool {
 	vrt.R.Point(vrt.KAtomic)
+	hb(unsafe.Pointer(p))
 	if *p == o {
 		*p = n
 		return true
